@@ -327,10 +327,27 @@ def m_c17(out) -> list[Violation]:
         if out["final"]["wf"] not in COMPLETE:
             vs.append(Violation(what=f"workflow is {out['final']['wf']} after the cancel was processed and the queue drained",
                                 signature="cancel-not-final", replay=_replay(out, {"final": fs})))
-        elif out["final"]["wf"] != "CANCELED" and "CANCELED" in fs.values() and "TERMINAL" not in fs.values():
+        elif out["final"]["wf"] != "CANCELED" and "CANCELED" in fs.values() and "TERMINAL" not in fs.values() \
+                and not workflow_in_effect_finished(out, at_cancel):
             vs.append(Violation(what=f"a stage was canceled but the workflow ends {out['final']['wf']}",
                                 signature=f"cancel-final:{out['final']['wf']}", replay=_replay(out, {"final": fs})))
     return vs
+
+
+def workflow_in_effect_finished(out, at_cancel: dict) -> bool:
+    """when the cancel was processed nothing could run any more: every stage was complete, or NOT_STARTED
+    behind a halted (TERMINAL / STOPPED / CANCELED) stage"""
+    specs = {s["ref"]: s for s in out["case"]["spec"]["stages"]}
+
+    def blocked(ref, seen=()):
+        if ref in seen:
+            return False
+        for r in specs[ref].get("reqs", []):
+            if at_cancel[r] in HALT or (at_cancel[r] == "NOT_STARTED" and blocked(r, seen + (ref,))):
+                return True
+        return False
+    return all(st in COMPLETE or (st == "NOT_STARTED" and specs[ref].get("join", "AND") == "AND" and blocked(ref))
+               for ref, st in at_cancel.items())
 
 
 def in_effect_finished(out, cseq: int) -> set:
